@@ -11,6 +11,7 @@ import (
 
 // ---- stubs ------------------------------------------------------------------------------------
 
+var vsRoundTripMode bool
 var vsShape int // 0: short strings (≤4 bytes, arbitrary); 1: strings of the exact lengths the fixed-size fields need
 
 func vsStr(name string, exact int) string {
@@ -23,6 +24,13 @@ func vsStr(name string, exact int) string {
 // contract of uuid.Parse: an error or arbitrary 16 bytes
 func vsUUIDParse(s string) (uuid.UUID, error) {
 	var u uuid.UUID
+	if vsRoundTripMode { // inverse of vsUUIDString (bijective stand-in for the textual form)
+		if len(s) != 16 {
+			return u, errors.New("invalid UUID length")
+		}
+		copy(u[:], s)
+		return u, nil
+	}
 	if vsNondetBool("uuid_err") {
 		return u, errors.New("invalid UUID")
 	}
@@ -33,7 +41,7 @@ func vsUUIDParse(s string) (uuid.UUID, error) {
 // contract of chiapos.NewG1ElementFromBytes / NewG2ElementFromBytes (cgo BLS validation): wrong length or an
 // invalid point ⇒ error; otherwise the bytes are copied.
 func vsNewG1(b []byte) (*chiapos.G1Element, error) {
-	if len(b) != 48 || vsNondetBool("g1_invalid") {
+	if len(b) != 48 || (!vsRoundTripMode && vsNondetBool("g1_invalid")) {
 		return nil, errors.New("invalid G1")
 	}
 	var g chiapos.G1Element
@@ -42,7 +50,7 @@ func vsNewG1(b []byte) (*chiapos.G1Element, error) {
 }
 
 func vsNewG2(b []byte) (*chiapos.G2Element, error) {
-	if len(b) != 96 || vsNondetBool("g2_invalid") {
+	if len(b) != 96 || (!vsRoundTripMode && vsNondetBool("g2_invalid")) {
 		return nil, errors.New("invalid G2")
 	}
 	var g chiapos.G2Element
@@ -64,6 +72,9 @@ func vsMsgQuality() *MsgQuality {
 // (strings arbitrary, pointers nil or not, slices of 0..2 elements with nil-able elements). This over-approximates
 // what a peer can make json.Unmarshal produce, which is sound for "never panics".
 func vsJSONUnmarshal(data []byte, v interface{}) error {
+	if vsRoundTripMode {
+		return vsJSONCopyBack(v)
+	}
 	if vsNondetBool("json_err") {
 		return errors.New("json")
 	}
